@@ -141,3 +141,15 @@ pub mod c08 {
 pub mod c19 {
     pub use crate::solver::implementations::default::verif_hooks_json::*;
 }
+
+/// Presolve (row reduction for infinite bounds) and cone-list consolidation on plain data.
+pub mod presolve {
+    pub use crate::solver::implementations::default::verif_hooks_presolver::*;
+
+    /// `SupportedConeT::new_collapsed`
+    pub fn new_collapsed<T: crate::algebra::FloatT>(
+        cones: &[crate::solver::SupportedConeT<T>],
+    ) -> Vec<crate::solver::SupportedConeT<T>> {
+        crate::solver::SupportedConeT::new_collapsed(cones)
+    }
+}
